@@ -1,9 +1,9 @@
 package main
 
 import (
-	"crypto/x509"
 	"context"
 	"crypto"
+	"crypto/x509"
 	"fmt"
 	"math/rand/v2"
 	"net/http"
@@ -65,8 +65,8 @@ func c01(x *runCtx) {
 }
 
 type c01Env struct {
-	rec61 []byte   // the honest run's 61 and 63s, for replay
-	rec63 [][]byte
+	rec61  []byte // the honest run's 61 and 63s, for replay
+	rec63  [][]byte
 	k      lab.Kind
 	enc    protocol.KeyEncoding
 	w      *lab.World
